@@ -1,4 +1,49 @@
-// engine K harnesses for module hook 'oprf_insecure' (included under cfg(kani) by /repo)
+// engine K — protocol/ipa_prf/oprf_padding/insecure.rs (property C12: parameter validation of the padding sampler)
+use super::*;
+
+/// an OPRFPaddingDp whose truncation point is `shift` (used by the C12 harnesses in protocol/dp)
+pub(crate) fn mk_padding_dp(shift: u32) -> OPRFPaddingDp {
+    OPRFPaddingDp {
+        epsilon: 1.0,
+        delta: 0.5,
+        sensitivity: 1,
+        truncated_double_geometric: super::super::distributions::verif_kani::mk_truncated_double_geometric(shift),
+    }
+}
+
+/// assumed contract of `find_smallest_n` (transcendental floats, unbounded search: not verified):
+/// returns some n with big_delta <= n <= 1_000_000
+fn stub_find_smallest_n(big_delta: u32, _epsilon: f64, _small_delta: f64) -> u32 {
+    let n: u32 = kani::any();
+    kani::assume(n >= big_delta && n <= 1_000_000);
+    n
+}
+
+/// OPRFPaddingDp::new accepts exactly: epsilon >= MIN_POSITIVE, MIN_POSITIVE <= delta <= 1 - MIN_POSITIVE,
+/// sensitivity <= 1_000_000 (epsilon restricted to <= 1e300 so that 1/epsilon is a normal float), and then the
+/// truncation point is at least the sensitivity (every noise value -sens..=sens is inside the support).
+#[kani::proof]
+#[kani::stub(find_smallest_n, stub_find_smallest_n)]
+fn c12_padding_dp_new_validation() {
+    let eps: f64 = kani::any();
+    let delta: f64 = kani::any();
+    let sens: u32 = kani::any();
+    kani::assume(!eps.is_nan() && !delta.is_nan() && eps <= 1e300);
+    let expect = eps >= f64::MIN_POSITIVE
+        && delta >= f64::MIN_POSITIVE
+        && delta <= 1.0 - f64::MIN_POSITIVE
+        && sens <= 1_000_000;
+    kani::cover!(expect);
+    kani::cover!(!expect && eps > 0.0 && delta > 0.0);
+    match OPRFPaddingDp::new(eps, delta, sens) {
+        Ok(d) => {
+            assert!(expect);
+            assert!(d.get_shift() >= sens && d.get_shift() <= 1_000_000);
+            assert!(d.truncated_double_geometric.shift_doubled == 2 * d.get_shift());
+        }
+        Err(_) => assert!(!expect),
+    }
+}
 
 #[cfg(test)]
 include!(concat!(env!("IPA_VERIF_DIR"), "/.build/playback/oprf_insecure.rs"));
